@@ -185,7 +185,11 @@ fn ectx(rng: &mut Rng, e: &str, ctx: &mut Vec<String>) -> String {
     let mut cur = e.to_string();
     let n = rng.below(3);
     for i in 0..n {
-        cur = match rng.below(8) {
+        cur = match rng.below(11) {
+            // AFTER a non-local sibling (a scoped read): later call parameters / list elements are checked all the same
+            8 => format!("(format \"{{}}{{}}\" [1].zw {})", cur),
+            9 => format!("[[1].zw, {}]", cur),
+            10 => format!("(plus [1].zw 2 {})", cur),
             0 => format!("[1, {}]", cur),
             1 => format!("{{{}}}", cur),
             2 => format!("(plus {} 1)", cur),
@@ -435,7 +439,9 @@ fn inject(rng: &mut Rng, p: &Program, rule: usize) -> Option<Injected> {
                 _ => vec!["scan \"abc\" {".into(), format!("  \"{}\" {{", rx), "    print zz_undef_in_arm".into(), "  }".into(), "}".into()],
             }
         }
-        _ => match rng.below(11) {   // benign neighbours: no violation
+        _ => match rng.below(12) {   // benign neighbours: no violation
+            11 => { sub = "capture-after-nonlocal-argument".into();
+                   match cap { Some(c) => vec!["var zz_m = 1".into(), format!("print (format \"{{}}{{}}\" zz_m @{}), [[1].zw, @{}]", c, c)], None => sv(&["var zz_m = 1", "print (plus zz_m 1 2)"]) } }
             9 => { sub = "keyword-prefixed-names-in-conditions".into();
                    let n1 = *rng.pick(&["some1", "some-flag", "something", "some_x", "some2nd"]); let n2 = *rng.pick(&["none2", "none-missing", "none_left", "nonempty", "none9"]);
                    vec![format!("let {} = #true", n1), format!("let {} = #false", n2), format!("if {} {{", n1), "  print 1".into(), format!("}} elif #true, {} {{", n2), "  print 2".into(), "}".into()] }
